@@ -204,7 +204,17 @@ class Interp:
             raise TooManyPaths()
 
     # ------------------------------------------------------------------ evaluation
+    LOG_MACROS = ('warn', 'debug', 'trace', 'info', 'error', 'log', 'log_enabled')
+
     def ev(self, e, st):
+        k = e['k']
+        sp = e.get('sp')
+        if sp and len(sp) > 5 and sp[5].rsplit('::', 1)[-1] in self.LOG_MACROS and not getattr(self, 'keep_logging', False):
+            # the expansion of a logging macro: level tests and formatting are not part of the behaviour any rule reads
+            return [Out('val', UNIT, st.event(('log', sp[5], e)))] if k in ('If', 'Block', 'Match') else self._ev(e, st)
+        return self._ev(e, st)
+
+    def _ev(self, e, st):
         k = e['k']
         m = getattr(self, 'ev_' + k, None)
         if m is None:
